@@ -17,6 +17,8 @@ def run(F, rep):
     dt_tables.graph_step_table(F, rep, "C02.2")
     dt_compress.extender_table(F, rep, "C02.3", graph_route=False)
     dt_compress.extender_table(F, rep, "C02.3", graph_route=True)
-    dt_compress.both_directions(F, rep, "C02.3")
+    dt_compress.hash_builder_table(F, rep, "C02.3")
+    dt_compress.graph_builder_table(F, rep, "C02.3")
+    dt_compress.hash_driver_table(F, rep, "C02.3")
     common.run_kmer_lemmas(F, rep, {"canon"})
     lemmas.exts_lemmas(F, rep)
